@@ -41,19 +41,23 @@ func runC09(c *Ctx) {
 	c.Guard(r1, ac, "session handed to the realm", hs, 1, guards...)
 	welcome := `^send:call:invoke:wamp\.Peer\.Send\[%client\]\(\)<-` + authc + `#0$`
 	c.Guard(r1, ac, "WELCOME sent", welcome, 1, append(guards, clause("realm accepted the session", T(`^\(call:router\.\(\*realm\)\.handleSession\(.*\) == nil\)$`)))...)
-	abort := `^call:dyn:closure:router\.\(\*router\)\.AttachClient\$1\(`
+	// the ABORT helper (a local closure in the pinned tree) is inlined by the normalisation pass: an ABORT is the send of
+	// the local abort message to the client, followed by closing the peer
+	abort := `^send:call:invoke:wamp\.Peer\.Send\[%client\]\(\)<-&local:abortMsg$`
 	c.Reach(r1, ac, "every exit sent WELCOME or ABORT, or closed the peer", ReachSpec{
 		Stop: abort + `|^call:invoke:wamp\.Peer\.Close\[%client\]\(\)$|` + welcome,
 		Cut:  []ir.Clause{clause("realm lookup failed (the action sent ABORT)", F(`^\(<-makechan\(chan error,0\) == nil\)$`))}, Target: "EXIT", Want: false})
 	c.Reach(r1, ac, "nothing is attached after an ABORT", ReachSpec{From: abort, Target: hs + `|` + welcome, Want: false})
-	a2 := ac + "$2"
-	c.Reach(r1, a2, "realm lookup failures send ABORT before reporting the error", ReachSpec{Stop: `^call:dyn:\^sendAbort\(`, Target: `^send:\^sync<-call:`, Want: false})
+	a2 := ac + "$1"
+	c.Reach(r1, a2, "realm lookup failures send ABORT before reporting the error", ReachSpec{Stop: `^send:call:invoke:wamp\.Peer\.Send\[\^client\]\(\)<-&local:abortMsg$`, Target: `^send:\^sync<-call:`, Want: false})
 	c.Guard(r1, a2, "realm resolved", `^send:\^sync<-nil$`, 1,
 		clause("router open", F(`^\^r\.closed$`)),
 		clause("realm exists or was created from the template", T(`^\^r\.realms\[\^hello\.Realm\],ok#1$`), T(`^\(\^err == nil\)$`)))
 	c.Has(r1, a2, "realm looked up by HELLO.Realm", `^store:\^realm=\^r\.realms\[\^hello\.Realm\],ok#0$`, 1)
-	c.Fields(r1, ac+"$1", "ABORT literal", "wamp.Abort", fieldIs("Reason", `.`), map[string]string{"Reason": `^%reason$`}, 1)
-	c.Before(r1, ac+"$1", "ABORT then close", `^send:call:invoke:wamp\.Peer\.Send\[\^client\]\(\)<-&local:abortMsg$`, `^call:invoke:wamp\.Peer\.Close\[\^client\]\(\)$`)
+	for _, f := range []struct{ fn, cl, tgt string }{{ac, `%client`, "EXIT"}, {a2, `\^client`, `^send:\^sync<-`}} {
+		c.Fields(r1, f.fn, "ABORT literal", "wamp.Abort", fieldIs("Reason", `.`), map[string]string{"Reason": `^"wamp\.(error|close)\.[a-z_]+"$`}, 1)
+		c.Reach(r1, f.fn, "ABORT then close", ReachSpec{From: `^send:call:invoke:wamp\.Peer\.Send\[` + f.cl + `\]\(\)<-&local:abortMsg$`, Stop: `^call:invoke:wamp\.Peer\.Close\[` + f.cl + `\]\(\)$`, Target: f.tgt, Want: false})
+	}
 	ruleOnlyInProcessIsLocal(c, r1)
 	c.R.Floor(r1, 24)
 
